@@ -149,10 +149,11 @@ def readFile (text : List Char) : Except Err (List (List (List Char))) :=
 
 /-! ## Tags and the archiver -/
 
-/-- A tag value as far as `archive()` distinguishes it. `flt n` stands for the float `n / 32`. -/
+/-- A tag value as far as `archive()` distinguishes it. `flt neg num den` is the float `(-1)^neg · num/den`
+    exactly (`float.as_integer_ratio()`, `den` a power of two; `neg` also carries the sign of `-0.0`). -/
 inductive Val where
   | none
-  | flt (n : Int)
+  | flt (neg : Bool) (num den : Nat)
   | int (n : Int)
   | str (s : List Char)
 deriving Repr, DecidableEq
@@ -161,14 +162,17 @@ def digits5 (n : Nat) : List Char :=
   let s := (toString n).toList
   List.replicate (5 - s.length) '0' ++ s
 
-/-- `f"{x:0.5f}"` for `x = n/32` (exact: 1/32 = 0.03125). -/
-def fmtFloat (n : Int) : List Char :=
-  let a := n.natAbs
-  (if n < 0 then ['-'] else []) ++ (toString (a / 32)).toList ++ '.' :: digits5 ((a % 32) * 3125)
+/-- `f"{x:0.5f}"`: the exact binary value correctly rounded to 5 decimals, ties to even (CPython formats
+    floats with correctly rounded decimal conversion); the sign is kept even when the digits are all zero. -/
+def fmtFloat (neg : Bool) (num den : Nat) : List Char :=
+  let q := num * 100000 / den
+  let r := num * 100000 % den
+  let k := if 2 * r > den then q + 1 else if 2 * r = den then (if q % 2 = 0 then q else q + 1) else q
+  (if neg then ['-'] else []) ++ (toString (k / 100000)).toList ++ '.' :: digits5 (k % 100000)
 
 def renderVal : Val → List Char
   | .none => []
-  | .flt n => fmtFloat n
+  | .flt neg num den => fmtFloat neg num den
   | .int n => (toString n).toList
   | .str s => s
 
@@ -197,7 +201,7 @@ def archive (t : Tag) : Tag × Option (List Char) :=
      some (match t.value with
        | .str s => s
        | .int n => if n = 0 then [] else renderVal (.int n)
-       | .flt n => if n = 0 then [] else renderVal (.flt n)   -- not produced by MarkTag.set_value
+       | .flt neg num den => if num = 0 then [] else renderVal (.flt neg num den)   -- not produced by MarkTag.set_value
        | .none => []))
   | .plain => (t, some (renderVal (if t.simulated then t.simValue else t.value)))
 
@@ -247,10 +251,10 @@ deriving Repr, DecidableEq
 /-- Python `==` between two tag values as far as the harness produces them (`2 == 2.0`). -/
 def pyEq : Val → Val → Bool
   | .none, .none => true
-  | .flt a, .flt b => a == b
+  | .flt n1 a1 d1, .flt n2 a2 d2 => a1 * d2 == a2 * d1 && (n1 == n2 || a1 == 0)
   | .int a, .int b => a == b
-  | .flt a, .int b => a == 32 * b
-  | .int a, .flt b => 32 * a == b
+  | .flt n a d, .int b => (if n then -(a : Int) else (a : Int)) == b * (d : Int)
+  | .int b, .flt n a d => (if n then -(a : Int) else (a : Int)) == b * (d : Int)
   | .str a, .str b => a == b
   | _, _ => false
 
@@ -265,7 +269,7 @@ def markSet (t : Tag) (text : List Char) : Tag :=
     | .str s => s
     | .none => []
     | .int n => if n = 0 then [] else renderVal (.int n)
-    | .flt n => if n = 0 then [] else renderVal (.flt n)
+    | .flt neg num den => if num = 0 then [] else renderVal (.flt neg num den)
   { t with value := .str (if cur = [] then text else cur ++ markSep ++ text) }
 
 def stepOp (s : State) : Op → State
